@@ -384,6 +384,11 @@ def run_job(job):
             if r2['hang']:
                 job.viol.append({'prop': job.prop, 'key': 'hang', 'k': k,
                                  'witness': json.dumps({'detail': 'no progress for %d s, twice' % job.case_timeout})})
+                job.hangs = getattr(job, 'hangs', 0) + 1
+                if job.hangs >= 3:
+                    # the violation is established; do not spend hours on further hanging cases of this shard
+                    job.inconclusive.append((k, 'shard abandoned after 3 confirmed hangs (remaining cases not run)'))
+                    break
             elif r2['returncode'] != 0 or not r2['stats']:
                 key, summ = classify_crash(r2['stderr'], r2['returncode'])
                 job.viol.append({'prop': job.prop, 'key': 'crash:' + key, 'k': k,
@@ -490,7 +495,7 @@ def main(argv):
         for sh in range(r['nshards']):
             j = Job(bins[(r['harness'], r['kind'], r['flavour'])], r['harness'], r['kind'], r['flavour'],
                     r.get('prop', pid), seed, sh, r['nshards'], r['cases'], tier, r.get('extra'),
-                    r.get('case_timeout', 180 if tier == 'quick' else 600))
+                    r.get('case_timeout', 40 if tier == 'quick' else 150))
             j.wrapper = list(r.get('wrapper', []))
             j.weight = r.get('weight', 1)
             j.group = r.get('group', r['harness'])
